@@ -58,4 +58,55 @@ def levelVisits (doc : Bytes) : Option Nat :=
   | (some evs, .eof) => some ((evs.map fun e => e.quote + 1).sum)
   | _ => none
 
+/-! ## Bracketing as the caller sees it: the automaton over the returned masks (round F, review C17-1)
+
+The whole-run bracket theorems speak about the decoder's span stack.  The property speaks
+about the masks of the returned tokens.  `maskStep` is the stack automaton a caller would run
+over `Style()` (the very automaton of the harness oracle, `harness/c17/c17.go clauses`): a span
+start bit pushes its kind, an end bit must name the innermost open span and pops it, a span
+style bit is on exactly for the open spans (and the span just ended), a token containing a
+newline leaves nothing open, and at the end nothing is open. -/
+
+/-- (style, start, end) bits of the four span kinds -/
+def spanBits : List (Style × Style × Style) :=
+  [(SpanEmph, SpanEmphStart, SpanEmphEnd), (SpanStrong, SpanStrongStart, SpanStrongEnd),
+   (SpanStrike, SpanStrikeStart, SpanStrikeEnd), (SpanPre, SpanPreStart, SpanPreEnd)]
+
+/-- one token: `none` = the masks are not well bracketed here; otherwise the new stack of
+open kinds (indices into `spanBits`, innermost first) -/
+def maskStep (stack : List Nat) (e : Event) : Option (List Nat) := do
+  -- starts push, ends pop the innermost of the same kind
+  let st ← (List.range 4).foldlM (init := stack) fun st k =>
+    match spanBits[k]? with
+    | none => none
+    | some (_, sB, eB) =>
+      let st := if e.style &&& sB != 0 then k :: st else st
+      if e.style &&& eB != 0 then
+        match st with
+        | top :: rest => if top = k then some rest else none
+        | [] => none
+      else some st
+  -- style bits = open spans (plus the one that was just ended)
+  let okBits := (List.range 4).all fun k =>
+    match spanBits[k]? with
+    | none => false
+    | some (sty, _, eB) => (decide (k ∈ st) || (e.style &&& eB != 0)) == (e.style &&& sty != 0)
+  if !okBits then none
+  else if e.data.contains nl && !st.isEmpty then none
+  else some st
+
+/-- the masks `NewDecoder` returns for `doc` are well bracketed -/
+def maskBracketed (doc : Bytes) : Bool :=
+  match decode none ⟨[], true⟩ doc with
+  | (some evs, .eof) => (evs.foldlM maskStep []) == some []
+  | _ => false
+
+/-- all documents of length `n` over an alphabet -/
+def docsOf (alpha : Bytes) : Nat → List Bytes
+  | 0 => [[]]
+  | n + 1 => alpha.flatMap fun c => (docsOf alpha n).map (c :: ·)
+
+/-- the directive alphabet of the small scope -/
+def smallAlpha : Bytes := [star, under, tick, tilde, gt, 0x20, nl, 0x61]
+
 end XmppModel.Styling
